@@ -15,7 +15,8 @@ _COMPRESS_EVENTS = [
     [r"^self\.file_bin\.with_suffix\('\.cbin_tmp'\)$", 'tmp_name', []],          # file_tmp = self.file_bin.with_suffix(".cbin_tmp")
     [r"^(\w+)\.with_suffix\('\.cbin'\)$", 'out_name', [r'\1']],                  # file_out = file_tmp.with_suffix(".cbin")
     [r"^mtscomp\.compress\(self\.file_bin, out=(\w+), outmeta=self\.file_bin\.with_suffix\('\.ch'\), ", 'compress', [r'\1']],
-    [r"^(\w+)\.rename\((\w+)\)$", 'rename', [r'\1', r'\2']],
+    [r"^(\w+)\.(?:rename|replace)\((\w+)\)$", 'rename', [r'\1', r'\2']],                 # file_tmp.rename(file_out)
+    [r"^(?:os\.rename|os\.replace|shutil\.move)\((\w+), (\w+)\)$", 'rename', [r'\1', r'\2']],   # (equivalent spellings)
     [r"^self\.file_bin\.unlink\(\)$", 'unlink_src', []],
 ]
 
@@ -34,7 +35,8 @@ _SCRATCH_EVENTS = [
     [r"^shutil\.copy\(self\.file_meta_data, (\w+)\.with_suffix\('\.meta'\)\)$", 'copy_meta', [r'\1']],
     [r"^self\.decompress_file\(keep_original=True, out=(\w+)\.with_suffix\('\.bin_temp'\), check_after_decompress=False, overwrite=True\)$",
      'decompress_to_temp', [r'\1']],
-    [r"^shutil\.move\((\w+)\.with_suffix\('\.bin_temp'\), (\w+)\)$", 'move_temp', [r'\1', r'\2']],
+    [r"^(?:shutil\.move|os\.rename|os\.replace)\((\w+)\.with_suffix\('\.bin_temp'\), (\w+)\)$", 'move_temp', [r'\1', r'\2']],
+    [r"^(\w+)\.with_suffix\('\.bin_temp'\)\.(?:rename|replace)\((\w+)\)$", 'move_temp', [r'\1', r'\2']],    # (equivalent spelling)
 ]
 
 
